@@ -1,6 +1,6 @@
 """Helpers for check definitions in driver/checks/<ID>.py"""
 
-HOOK_COMMITS = ['c05899a', 'd288bca', 'c624ca2', '20fdf65', '30670be', '93b1c4a', '2d0afb5', 'f3cd214', '860d593', 'ed6f310', 'd7e892a', '8010ec2']
+HOOK_COMMITS = ['c05899a', 'd288bca', 'c624ca2', '20fdf65', '30670be', '93b1c4a', '2d0afb5', 'f3cd214', '860d593', 'ed6f310', 'd7e892a', '8010ec2', '7c8fbb5']
 PENDING_REASON = {}
 
 ALL3 = [None, 'two', 'one', None]     # CPU shapes cycled over executions
